@@ -17,6 +17,7 @@ import (
 
 	cp "github.com/cockroachdb/pebble"
 	"github.com/cockroachdb/pebble/vfs"
+	"github.com/zen-eth/shisui/history"
 	"github.com/zen-eth/shisui/storage"
 	"github.com/zen-eth/shisui/storage/pebble"
 
@@ -89,12 +90,15 @@ func waitCompactions(cs storage.ContentStorage) {
 }
 
 type env struct {
-	fs   vfs.FS
-	dir  string
-	db   *cp.DB
-	cs   storage.ContentStorage
-	node [32]byte
-	capM uint64
+	adapter string // "" = the pebble store itself; "history" = history.NewHistoryStorage(hybrid) on top of it
+	ephDB   *cp.DB
+	pst     storage.ContentStorage
+	fs      vfs.FS
+	dir     string
+	db      *cp.DB
+	cs      storage.ContentStorage
+	node    [32]byte
+	capM    uint64
 }
 
 func pebbleOpts(fs vfs.FS) *cp.Options {
@@ -122,17 +126,48 @@ func (e *env) open() error {
 		e.db = nil
 		return err
 	}
-	e.cs = cs
+	e.cs, e.pst = cs, cs
+	if e.adapter == "history" {
+		if e.ephDB == nil {
+			edb, err := cp.Open("eph", pebbleOpts(vfs.NewMem()))
+			if err != nil {
+				return err
+			}
+			e.ephDB = edb
+		}
+		hs, err := history.NewHistoryStorage(cs, history.NewEphemeralStorage(storage.PortalStorageConfig{NetworkName: "verif"}, e.ephDB))
+		if err != nil {
+			return err
+		}
+		e.cs = hs
+	}
 	return nil
+}
+
+// keyFor gives the content key handed to the store next to the id: the pebble store ignores it, the history
+// adapter routes on its first byte (all non-ephemeral block types must reach the same store).
+func (e *env) keyFor(id []byte) []byte {
+	if e.adapter != "history" {
+		return nil
+	}
+	return append([]byte{id[7] % 4}, id...)
 }
 
 func (e *env) close() {
 	if e.db != nil {
-		waitCompactions(e.cs)
-		forget(e.cs)
+		waitCompactions(e.inner())
+		forget(e.inner())
 		e.db.Close()
 		e.db = nil
 	}
+}
+
+// inner is the pebble store below an adapter (compaction bookkeeping is keyed by it)
+func (e *env) inner() storage.ContentStorage {
+	if e.pst != nil {
+		return e.pst
+	}
+	return e.cs
 }
 
 func scan(db *cp.DB) (items []item, rec int, bytesHeld int) {
@@ -267,6 +302,9 @@ func runSeq(w *tracelog.Writer, seed int64, traces, ops int, capM uint64, disk b
 			e.capM = 2
 		}
 		rng.Read(e.node[:])
+		if t%3 == 1 {
+			e.adapter = "history"
+		}
 		var tmp string
 		if disk {
 			var err error
@@ -290,7 +328,7 @@ func runSeq(w *tracelog.Writer, seed int64, traces, ops int, capM uint64, disk b
 			id := pool[rng.Intn(len(pool))]
 			switch k := rng.Intn(20); {
 			case k < 4:
-				v, err := e.cs.Get(nil, id)
+				v, err := e.cs.Get(e.keyFor(id), id)
 				ev := map[string]any{"ev": "get", "t": t, "id": tracelog.Ints(id)}
 				if err == nil {
 					ev["res"], ev["len"], ev["tag"] = "found", 32+len(v), common.Tag(v)
@@ -318,7 +356,7 @@ func runSeq(w *tracelog.Writer, seed int64, traces, ops int, capM uint64, disk b
 					n = capB + 1000
 				}
 				v := mkVal(rng, n)
-				err := e.cs.Put(nil, id, v)
+				err := e.cs.Put(e.keyFor(id), id, v)
 				s, rec, _ := scan(e.db)
 				w.Emit(map[string]any{"ev": "put", "t": t, "id": tracelog.Ints(id), "len": 32 + n, "tag": common.Tag(v),
 					"res": putRes(err), "snap": s, "sizeRec": rec, "radius": radiusBytes(e.cs), "changed": h.changed()})
